@@ -44,7 +44,7 @@ def main():
             return 2
         r = sh('git -C /repo apply %s' % patch)
     else:
-        wt = '/root/scratch/seedrun_%s' % a.id
+        wt = '/root/scratch/seedrun_%s_%d' % (a.id, os.getpid())
         sh('git -C /repo worktree remove --force %s' % wt)
         shutil.rmtree(wt, ignore_errors=True)
         r = sh('git -C /repo worktree add --detach %s' % wt)
@@ -56,7 +56,7 @@ def main():
             sh('git -C /repo worktree remove --force %s' % wt)
         return 2
     results = {}
-    evbak = '/root/scratch/evidence_backup_%s' % a.id
+    evbak = '/root/scratch/evidence_backup_%s_%d' % (a.id, os.getpid())
     shutil.rmtree(evbak, ignore_errors=True)
     shutil.copytree(os.path.join(VERIF, 'evidence'), evbak)
     try:
@@ -95,9 +95,20 @@ def main():
         for f in os.listdir(evbak):
             shutil.copy2(os.path.join(evbak, f), os.path.join(VERIF, 'evidence', f))
         shutil.rmtree(evbak, ignore_errors=True)
-    out = {'tier': a.tier, 'mode': 'in-repo' if a.in_repo else 'worktree+VERIF_REPO', 'results': results,
-           'detected_by': sorted(p for p, v in results.items() if v['detected'])}
-    json.dump(out, open(os.path.join(d, 'result.json'), 'w'), indent=1)
+    # results of earlier runs for other properties are kept (several owners run their own check on a shared seed)
+    rp = os.path.join(d, 'result.json')
+    merged = {}
+    if a.props and os.path.exists(rp):
+        try:
+            old = json.load(open(rp))
+            if old.get('tier') == a.tier:
+                merged = dict(old.get('results', {}))
+        except Exception:  # noqa
+            merged = {}
+    merged.update(results)
+    out = {'tier': a.tier, 'mode': 'in-repo' if a.in_repo else 'worktree+VERIF_REPO', 'results': merged,
+           'detected_by': sorted(p for p, v in merged.items() if v['detected'])}
+    json.dump(out, open(rp, 'w'), indent=1)
     return 0
 
 
